@@ -301,7 +301,10 @@ fn check_file(
     // present or absent, never anything else
     let decoded;
     let (data, from): (&[u8], usize) = if json {
-        match common::decode_json(&data[m.base.len()..], !m.failed.is_empty()) {
+        // an unterminated last line is legitimate only while some record is being written
+        // (or a failed one left a fragment behind)
+        let open_tail = !m.failed.is_empty() || (!quiescent && m.inv.values().any(|(_, r)| r.is_none()));
+        match common::decode_json(&data[m.base.len()..], !m.failed.is_empty(), open_tail) {
             Ok(d) => {
                 decoded = d;
                 (&decoded, 0)
